@@ -11,7 +11,7 @@ from .common import call, call_func, driver_interp, new_obj
 # label -> (class, key)
 UNIVERSE = {"Eb": ("Entry", "b"), "Ea": ("Entry", "a"), "Ea2": ("Entry", "a2"), "Sa": ("String", "a"), "Sz": ("String", "z"), "P": ("Preamble", None),
             "C1": ("ExplicitComment", None), "C2": ("ImplicitComment", None), "C3": ("ExplicitComment", None), "F": ("ParsingFailedBlock", None),
-            "Eb'": ("Entry", "b"), "S": ("String", "")}
+            "Eb'": ("Entry", "b"), "S": ("String", ""), "Sa'": ("String", "a")}
 SEQS = [
     ["C1", "Eb", "C2", "C3", "Sa", "P", "Ea", "F", "C1"],
     ["Eb", "Eb'", "Ea"],                      # duplicate key -> Dup wrapper at position 1
@@ -19,9 +19,11 @@ SEQS = [
     ["C1", "C2"],
     [],
     ["Sa", "C3", "Sz", "Ea", "C1", "P", "C2", "Eb"],
+    ["Eb", "C1", "Eb'", "Ea", "-0"],           # the first b is removed again: its duplicate stays a (failed) duplicate block
+    ["Sa", "Eb", "Eb'", "Sa'", "Ea"],          # duplicates of both kinds; listed before their first blocks in the last order
 ]
 ORDERS = [("String", "Preamble", "Entry", "ImplicitComment", "ExplicitComment"), ("Entry", "String"), ("Preamble",), (),
-          ("ExplicitComment", "Entry", "ImplicitComment", "String", "Preamble")]
+          ("ExplicitComment", "Entry", "ImplicitComment", "String", "Preamble"), ("DuplicateBlockKeyBlock", "Entry", "String")]
 
 
 def ref_sort(items, order, preserve):
@@ -67,6 +69,8 @@ def run(P: Program, rep: Report):
                     m = P.module("model")
                     objs = []
                     for i, lab in enumerate(seq):
+                        if lab.startswith("-"):
+                            continue
                         c, key = UNIVERSE[lab]
                         tag = f"{lab}#{i}"
                         if c == "Entry":
@@ -82,6 +86,9 @@ def run(P: Program, rep: Report):
                         objs.append(o)
                     lib = new_obj(it, P, "library", "Library")
                     call(it, lib, "add", AList(objs))
+                    for lab in seq:
+                        if lab.startswith("-"):
+                            call(it, lib, "remove", objs[int(lab[1:])])
                     held = it.iterate(it.get_attr(lib, "blocks"))
                     items = []
                     for b in held:
@@ -144,3 +151,8 @@ def run(P: Program, rep: Report):
             return r.cls_name()
     for ctx, v in explore(two, 5):
         rep.check(v == "ValueError", "C16.R2", "constructor:non-block-type", cls.loc, f"a non-Block type in block_type_order is {v}, expected ValueError")
+
+    rep.rule("C16.R9", "no unsafe memoisation in the modules this property rests on: a function decorated with lru_cache / cache / "
+                      "cached_property neither takes nor returns a mutable object (else later calls see stale or shared results)")
+    from . import common as _common
+    _common.no_unsafe_memoisation(P, rep, "C16.R9", ['middlewares.sorting_blocks', 'library'])
